@@ -14,7 +14,7 @@ MACROS = ['ascent', 'ascent_par', 'ascent_run', 'ascent_run_par']
 
 
 def sizes(ctx):
-    return dict(programs=30, per_kind=1) if ctx.tier == 'quick' else dict(programs=300, per_kind=2)
+    return dict(programs=80, per_kind=1) if ctx.tier == 'quick' else dict(programs=400, per_kind=2)
 
 
 EXTRA_ILL = [
